@@ -193,6 +193,7 @@ def build_harness(kind='asan', overrides=None, extra_flags=(), sources=None):
     import cast
     flags = {'asan': ['-g', '-O1', '-fsanitize=address,undefined', '-fno-sanitize-recover=all', '-DDEBUG=1'],
              'plain': ['-g', '-O1', '-DDEBUG=1'],
+             'asanrel': ['-g', '-O2', '-fsanitize=address,undefined', '-fno-sanitize-recover=all'],      # release configuration: CBOR_ASSERT compiled out
              'o0': ['-g', '-O0'], 'o2': ['-g', '-O2'],
              'tsan': ['-g', '-O1', '-fsanitize=thread', '-pthread']}[kind] + list(extra_flags)
     hsrc = sources or sorted(os.path.join(VERIF, 'harness', f) for f in os.listdir(os.path.join(VERIF, 'harness')) if f.endswith('.c')
